@@ -18,7 +18,7 @@ from ..recipes import ref as R
 
 LEVEL = "exploration"
 BUDGET_S = {"quick": 80, "thorough": 1500}
-N_RANDOM = {"quick": 120, "thorough": 4000}
+N_RANDOM = {"quick": 500, "thorough": 15000}
 RTOL = 1e-6
 MAXN = 7
 
